@@ -1,12 +1,14 @@
 SPECIFICATION Spec
 CONSTANTS
-  Families = {"single", "pair", "triple"}
+  Families = {"single", "resid", "pair", "triple"}
   BufSizes = {256, 512, 4096}
   CompCfgs <- QuickComp
   XBufSizes = {}
   XCompCfgs <- QuickComp
   MultiBufSizes = {256, 4096}
   MultiCompCfgs <- QuickMulti
+  ResidBufSizes = {121, 122, 123, 124, 125, 126, 127, 128}
+  ResidCompCfgs <- ResidComp
   BigSizes = {}
   RandSizes = {}
   RandCalls = {}
